@@ -76,7 +76,7 @@ TNext ==
   /\ l <= Len(TraceLog)
   /\ (LET e == TraceLog[l]  k == Kind(e)  c == e.cell  q == PointOf(e) IN
       /\ IF k = "ok" THEN TRUE ELSE PrintT(<<"MISMATCH", l, e.op, e.alg, k, e.bearer, e.dir, Len(e.before)>>)
-      /\ CASE e.op = "TraceReset" -> cell' = Empty /\ plain' = Empty /\ odd' = Empty /\ ks' = Empty
+      /\ CASE e.op = "TraceReset" -> cell' = Empty /\ plain' = Empty /\ odd' = Empty /\ UNCHANGED ks   \* the keystream function is global: kept across histories
            [] e.op = "Load" -> /\ cell' = Put(cell, c, IF e.nil THEN Nil ELSE e.after)
                                /\ plain' = Put(plain, c, IF e.nil THEN Nil ELSE e.after)
                                /\ odd' = Put(odd, c, {}) /\ UNCHANGED ks
@@ -91,6 +91,10 @@ TNext ==
                    ELSE /\ plain' = Put(plain, c, IF e.nil THEN Nil ELSE e.after)      \* after a mismatch: restart the cell from what was seen
                         /\ odd' = Put(odd, c, {})
                         /\ UNCHANGED ks
+           [] e.op = "Mac" ->
+                /\ cell' = Put(cell, c, IF e.nil THEN Nil ELSE e.after)
+                /\ IF k = "ok" THEN UNCHANGED <<plain, odd, ks>>
+                   ELSE /\ plain' = Put(plain, c, IF e.nil THEN Nil ELSE e.after) /\ odd' = Put(odd, c, {}) /\ UNCHANGED ks
            [] OTHER -> UNCHANGED <<cell, plain, odd, ks>>)
   /\ last' = (LET e == TraceLog[l] IN [NoCall EXCEPT !.op = e.op, !.c = e.cell, !.alg = e.alg, !.bearer = e.bearer, !.dir = e.dir, !.err = e.err, !.mac = e.mac])
   /\ TLCSet(2, l)
